@@ -333,6 +333,30 @@ def direct_cases():
     for cb, blocks in bodies:
         for blk, inst in blocks:
             yield {"kind": "direct", "prog": {"prec": "f32", "cfg": False, "callees": [callee(cb)], "main": main(blk)}, "start": 1, "blen": 1, "instance": inst}
+    # a bool / index / size parameter that occurs several times in the callee must be bound to ONE
+    # expression of the block
+    def main2(stmts):
+        return {"name": "foo", "args": [_arg("m", "size"), _arg("x", "tensor", dims=["8"]), _arg("z", "tensor", dims=["8"]), _arg("y", "tensor", dims=["4"]), _arg("w", "tensor", dims=["4"])], "preds": ["m <= 8"], "body": [["assign", "w", ["0"], "1.0"]] + stmts + [["assign", "w", ["1"], "y[0]"]]}
+
+    def two(g1, g2, o1="0", o2="4"):
+        return [loop([["if", g1, [["assign", "y", ["i"], f"x[i + {o1}]"]], []]]), loop([["if", g2, [["reduce", "y", ["i"], f"x[i + {o2}]"]], []]])]
+
+    kb = callee([loop([["if", "en", [["assign", "dst", ["i"], "src[i]"]], []]]), loop([["if", "en", [["reduce", "dst", ["i"], "src[i + 4]"]], []]])], [{"name": "en", "kind": "bool"}])
+    for g1, g2, inst in (("m < 4", "m < 4", True), ("m < 4", "m < 6", False), ("m < 4", "m > 4", False), ("m < 4", "4 < m", False), ("m + 1 < 4", "m + 2 < 4", False)):
+        yield {"kind": "direct", "prog": {"prec": "f32", "cfg": False, "callees": [kb], "main": main2(two(g1, g2))}, "start": 1, "blen": 2, "instance": inst, "ctrl": [{"m": v} for v in range(1, 9)]}
+    # an if without else in the callee must not absorb an if WITH an else in the block
+    km = callee([loop([["if", "i < k", [["assign", "dst", ["i"], "src[i]"]], []]])], [{"name": "k", "kind": "index", "range": (0, 8)}])
+    km["preds"] = ["k >= 0 and k <= 8"]
+    for blk, inst in (
+        ([loop([["if", "i < m", [["assign", "y", ["i"], "x[i]"]], []]])], True),
+        ([loop([["if", "i < m", [["assign", "y", ["i"], "x[i]"]], [["assign", "y", ["i"], "0.0"]]]])], False),
+        ([loop([["if", "i < m", [["assign", "y", ["i"], "x[i]"]], [["pass"]]]])], True),
+    ):
+        yield {"kind": "direct", "prog": {"prec": "f32", "cfg": False, "callees": [km], "main": main2(blk)}, "start": 1, "blen": 1, "instance": inst, "ctrl": [{"m": v} for v in range(1, 9)]}
+    ki = callee([loop([["if", "i < k", [["assign", "dst", ["i"], "src[i]"]], []]]), loop([["if", "i < k", [["reduce", "dst", ["i"], "src[i + 4]"]], []]])], [{"name": "k", "kind": "index", "range": (0, 8)}])
+    ki["preds"] = ["k >= 0 and k <= 8"]
+    for g1, g2, inst in (("i < m", "i < m", True), ("i < m", "i < m - 1", False), ("i < m", "i < 2", False), ("i < 3", "i < 2", False)):
+        yield {"kind": "direct", "prog": {"prec": "f32", "cfg": False, "callees": [ki], "main": main2(two(g1, g2))}, "start": 1, "blen": 2, "instance": inst, "ctrl": [{"m": v} for v in range(1, 9)]}
 
 
 def check_direct(case):
@@ -360,9 +384,11 @@ def check_direct(case):
         CTX.op("replace:" + label, "accepted")
     ir0, ir2 = p0.INTERNAL_proc(), p2.INTERNAL_proc()
     where = f"replace(block {case['start']}, kern) [{label}]\n--- callee:\n{safe_str(f)}\n--- before replace:\n{safe_str(p0)}\n--- after replace:\n{safe_str(p2)}"
-    for fill in (1, 2, 4):
-        fv = {"ctrl": {}, "fill": fill, "layout": 0, "config": {}}
+    for fill, ctrl in [(f, c) for f in (1, 2, 4) for c in case.get("ctrl", [{}])]:
+        fv = {"ctrl": ctrl, "fill": fill, "layout": 0, "config": {}}
         o1 = run_outcome(ir0, fv)
+        if o1.unsafe is not None or o1.limit:
+            continue
         o2 = run_outcome(ir2, fv)
         bad = compare_outcomes(o1, o2) or (compare_outcomes(o2, o1) if o2.bufs is not None else None)
         if bad:
